@@ -16,11 +16,15 @@ NOT_APPLICABLE = [
     {"property_id": "C17", "reason": "a single-threaded in-memory multi-mapping against a list model: sequential histories without faults, interleavings or time - input generation, not simulation."},
     {"property_id": "C18", "reason": "URL reconstruction and component replacement are pure functions of strings/dicts (WSGI-vs-ASGI agreement of request.url is covered by C04's differential run)."},
 ]
-PENDING = ["C01", "C02", "C04", "C05", "C11", "C12", "C14", "C15", "C16", "C19", "C20"]
+PENDING = ["C01", "C02", "C04", "C05", "C11", "C12", "C14", "C15", "C16", "C20"]
 for _p in PENDING:
     NOT_APPLICABLE.append({"property_id": _p, "reason": "not yet claimed: the simulation check for this property is designed (DESIGN.md section 3) but not built yet"})
 ENGINES.append({"name": "SimThreads", "path": "sim/threads.py", "serves_properties": ["C06"], "kind_free_text": "real threads run one at a time under a seeded baton scheduler; stub queue.Queue/Future/executor/Thread/time with stdlib semantics; line-level pre-emption via sys.settrace in baize/wsgi/responses.py; virtual time and deadlock detection"})
 CLAIMED = {
+    "C19": {"engine": "SimLoop + SimASGI (ASGI SSE), SimThreads + SimWSGI (WSGI SSE), streaming WHATWG EventSource parser as client peer", "level": "exploration", "design_ref": "3.12",
+            "technique": "deterministic simulation: seeded producer/ping-timer/consumer schedules and transport re-chunking, EventSource reference parser as oracle",
+            "text": "Seeded search over event sequences (data over CR/LF/CRLF and the other Unicode separators, names, ids, retry, same dict yielded twice, charsets) x producer delays around the ping interval x send latencies / consumer delays x thread pre-emption x transport re-chunking; the delivered byte stream is parsed by a streaming WHATWG EventSource parser and each non-comment block must have the effect of the yielded item, pings none, order preserved.",
+            "note": "The EventSource parser is a model written from the HTML standard; two readings of a trailing line terminator are accepted; event text is generated workload, the simulated content is the timing/interleaving and the transport chunking."},
     "C06": {"engine": "SimLoop + SimASGI (ASGI), SimThreads (WSGI SSE), SimWSGI (WSGI stream)", "level": "fault_enumeration", "design_ref": "3.5",
             "technique": "deterministic simulation with fault enumeration: every disconnect/close point of each generated scenario, seeded thread/timer schedules",
             "text": "For each seeded scenario (producer length and per-item delays aligned to the ping interval, consumer/send latencies, producer exception, slow cleanup, server flavour, thread pre-emption rate) the fault-free run is followed by one run per emission point with the client disconnect / server close() placed there (plus seeded instants). Termination (virtual-time bound, deadlock detection across real threads), release (cleanup exactly once, no pending task / blocked thread), delivery (in-order prefix) and exception identity are checked. The fault-point space per scenario is enumerated completely; scenarios and schedules are sampled.",
